@@ -84,7 +84,7 @@ func getShard() shardInfo {
 // --------------------------------------------------------------- helpers
 
 func caseOf(m *Mutant) *props.Case {
-	return &props.Case{Property: Property, Family: m.Triple.Family, Files: m.Files(),
+	return &props.Case{Property: Property, Family: m.Triple.Family, Files: encodeFiles(m.Files()),
 		Params: map[string]string{"dev": "device", "spoc": "code/router"},
 		Gen: fmt.Sprintf("index=%d example=%s:%q role=%s kind=%s pos=%s line=%d",
 			m.Index, m.Triple.File, m.Triple.Title, m.Role, m.Kind, m.Pos, m.Line)}
@@ -219,7 +219,7 @@ func TestC20(t *testing.T) {
 	} else {
 		perShard := explicitChecks()
 		if perShard <= 0 {
-			perShard = props.EnvInt("C20_QUICK_PER_SHARD", 4500)
+			perShard = props.EnvInt("C20_QUICK_PER_SHARD", 4000)
 		}
 		sel = sampler(total, int64(perShard)*int64(sh.nshards), sh.seed, 1, sh.shard, sh.nshards)
 		ev.Note("exhaustive", fmt.Sprintf("false: seed-indexed sample of about %d of %d members", perShard*sh.nshards, total))
@@ -235,8 +235,12 @@ func TestC20(t *testing.T) {
 
 	ok := t.Run("inproc", func(t *testing.T) {
 		pr := openProgress(sh)
+		defer pr.done()
 		n := 0
 		filter := os.Getenv("C20_FILTER") // development: restrict to matching "file role kind pos"
+		if filter != "" || os.Getenv("C20_ONLY_INDEX") != "" {
+			ev.Note("exhaustive", "false: restricted by C20_FILTER / C20_ONLY_INDEX")
+		}
 		var timing map[string]time.Duration
 		timingN := map[string]int{}
 		if os.Getenv("C20_TIMING") != "" {
@@ -292,7 +296,6 @@ func TestC20(t *testing.T) {
 			}
 			return true
 		})
-		pr.done()
 		ev.Note(fmt.Sprintf("evaluated_inproc:shard%d", sh.shard), strconv.Itoa(n))
 		for _, s := range crashes.order {
 			t.Logf("known root cause %s: %d case(s) in this shard", s, crashes.count[s])
@@ -361,6 +364,7 @@ func TestC20(t *testing.T) {
 				if !sm.absent {
 					files["status"] = sm.content
 				}
+				files = encodeFiles(files)
 				c := &props.Case{Property: Property, Family: "status", Files: files,
 					Params: map[string]string{"arm": arm},
 					Gen:    fmt.Sprintf("status mutant %d kind=%s", i, sm.kind)}
